@@ -757,6 +757,37 @@ for _norm in (True, False):
                                   label=f"{_QP}plot_seismic_recordings_3c[normalize={_norm},mask={_mask}]",
                                   clauses=["recordings are drawn component by component, in order, accepted or rejected style by the mask; the recordings are not written"]))
 
+# ---------------------------------------------------------------------------------------------------------------------
+# summarize_spatial_statistics: the table of the Monte-Carlo spatial statistics (C14).  Row fn: the mean (lognormal: the exponentiated median), the standard
+# deviation, the -1 / +1 standard-deviation values; row Tn (lognormal only): the reciprocals with the same log-standard deviation; anything else refused.
+from pyvc.npmodel import EXP as _EXP20, LOG as _LOG20
+SPM, SPS = z3.Real("spatial_mean"), z3.Real("spatial_stddev")
+
+
+def _sp_inputs20(dist):
+    def mk(ex, st):
+        st.env.update(spatial_mean=SPM, spatial_stddev=SPS, spatial_distribution=StrV(dist))
+        st.env["__table"] = NONE
+        return [SPM > 0]
+    return mk
+
+
+_SPG = {"CELL": FuncV(_cell, "CELL"), "exp": _EXP20, "log": _LOG20, "isnan": lambda x: x == npm.NAN, "no_table": FuncV(lambda ex, st, a, k, n_: z3.BoolVal(st.env["__table"] is NONE), "no_table")}
+_SP_ENV = dict(_P_ENV, pd=_PD, display=FuncV(lambda ex, st, a, k, n_: NONE, "display"))
+for _d, _ens, _rai in (
+        ("lognormal", ["CELL(0, 0) == spatial_mean and CELL(0, 1) == spatial_stddev", "CELL(0, 2) == exp(log(spatial_mean) - spatial_stddev) and CELL(0, 3) == exp(log(spatial_mean) + spatial_stddev)",
+                       "CELL(1, 0) == 1 / spatial_mean and CELL(1, 1) == spatial_stddev",
+                       "CELL(1, 2) == 1 / exp(log(spatial_mean) - spatial_stddev) and CELL(1, 3) == 1 / exp(log(spatial_mean) + spatial_stddev)"], {}),
+        ("normal", ["CELL(0, 0) == spatial_mean and CELL(0, 1) == spatial_stddev", "CELL(0, 2) == spatial_mean - spatial_stddev and CELL(0, 3) == spatial_mean + spatial_stddev",
+                    "isnan(CELL(1, 0)) and isnan(CELL(1, 1)) and isnan(CELL(1, 2)) and isnan(CELL(1, 3))"], {}),
+        ("uniform", [], {"ValueError": "True"})):
+    _c = Contract(qual=_QP + "summarize_spatial_statistics", params=["spatial_mean", "spatial_stddev", "spatial_distribution"], ghost=_SPG, make_inputs=_sp_inputs20(_d),
+                  axioms=npm.ax_logexp(),
+                  ensures=_ens, raises=_rai, modifies=[],
+                  notes="the table shows the statistics handed in: mean / standard deviation / -1 / +1 values in the requested space, the period row the reciprocals (lognormal)")
+    _c.ghost_state = ("__table",)
+    TASKS.append(FunctionTask(_c, module_env=_SP_ENV, label=f"{_QP}summarize_spatial_statistics[{_d}]", clauses=["the spatial summary table lists the statistics it is given"]))
+
 META = dict(
     level="other",
     explanation="frame obligations: the 14 plotting / summary functions write nothing reachable from the HVSR object, the recordings or their keyword-argument "
